@@ -196,3 +196,22 @@ theorem walk_over_history_with_blocks (hlen : ∀ b, (H b).length = 32) (evs : L
 
 end
 end PyTrie.Props.C09
+
+/-! ### termination for walks interleaved with histories with blocks -/
+namespace PyTrie.Props.C09
+open PyTrie PyTrie.Hex PyTrie.HexD PyTrie.HexW PyTrie.HexRaw PyTrie.HexFree PyTrie.Fog PyTrie.Walk
+open PyTrie.Props.Free (Good')
+
+/-- **a walk interleaved with a history with blocks is bounded**: steps taken + what is left of the fog ≤ 17^(L+1) while the
+    versions between the steps store keys of at most `L` nibbles; at the bound the fog is complete -/
+theorem walk_over_history_with_blocks_bounded (H : Bytes → Bytes) (hlen : ∀ b, (H b).length = 32) (L : Nat) (evs : List WEvB)
+    (hgood : Good' H (freshW H false) (hstepsOf evs))
+    (hphys : StepsPhysical H (schedOfB H (freshW H false) evs))
+    (hL : ∀ e ∈ schedOfB H (freshW H false) evs, ∀ k, get e.t k ≠ [] → k.length ≤ L)
+    (r : CStateD) (hrun : crunDR H cstartD ((schedOfB H (freshW H false) evs).map StepT.toD) = .ok (some r)) :
+    (schedOfB H (freshW H false) evs).length + r.fog.length ≤ 17 ^ (L + 1) ∧
+    ((schedOfB H (freshW H false) evs).length = 17 ^ (L + 1) → r.fog = []) :=
+  ⟨(raw_walk_length_bounded H hlen L _ (schedOk_of_history_with_blocks H hlen evs hgood hphys) hL r hrun).2,
+   (raw_walk_complete_at_bound H hlen L _ (schedOk_of_history_with_blocks H hlen evs hgood hphys) hL r hrun).2⟩
+
+end PyTrie.Props.C09
